@@ -629,7 +629,8 @@ def run(ctx):
                        'multiplicities 1..p, disparity 1/2/3/inf, set/list/tuple marks, multi-level marks, refine_region half-space/ball '
                        'predicates, empty marks); non-trivial = at least one call; distinct by (configuration, explicit op list)')
     ctx.cov['input_distribution'] = {'histories_by_family': dist, 'calls_observed': opkinds}
-    ctx.cov['exhaustive'] = ('per tree: all non-empty subsets of active cells at every call unless listed in subsets_sampled_in; '
+    ctx.cov['exhaustive'] = False
+    ctx.cov['exhaustive_parts'] = ('per tree: all non-empty subsets of active cells at every call unless listed in subsets_sampled_in; '
                              'quick: 1-D n<=3 two calls, n=2 three calls, n=4 one call, 2-D 2x2 first call; thorough: 1-D n<=2 three calls (9 configurations), '
                              'n=3 two calls (9 configurations) and three calls below first calls marking <=2 cells (one configuration), n=4 two calls (5 configurations), '
                              '2-D 2x2 first call exhaustive, second call up to the node budget')
